@@ -17,6 +17,7 @@ import Cte.Model.Solar
 import Cte.Model.Damage
 import Cte.Model.Bdl
 import Cte.Model.Convert
+import Cte.Model.Placement
 import Cte.Gen.Schema
 open Cte
 
@@ -346,6 +347,55 @@ def opSkelConvert (req : J) : J :=
     | .ok m => J.obj [("ok", SkelIO.mdlJ m)]
     | .error e => J.obj [("err", J.str e)]
 
+namespace PlaceIO
+open Cte.Place
+def num (j : J) (k : String) : Rat := match (j.get? k).bind jnum? with | some r => r | none => 0
+def ang (j : J) (k : String) : Ang := match (j.get? k).map jnums with | some [c, s] => ⟨c, s⟩ | _ => ⟨1, 0⟩
+def pts (j : Option J) : List (Rat × Rat) :=
+  match j with
+  | some (J.arr l) => l.filterMap (fun p => match jnums p with | [x, y] => some (x, y) | _ => none)
+  | _ => []
+
+/-- global corners of one source wall, or `none` when the conversion rejects its location kind -/
+def wallOf (spaces : List J) (w : J) : Option (List Vec3) :=
+  let spName := SkelIO.str w "space"
+  match spaces.find? (fun s => SkelIO.str s "name" == spName) with
+  | none => none
+  | some sj =>
+    let tr := (w.get? "trig").getD J.null
+    let g := ang tr "g"
+    let sp : Place.SpaceP := { off := ⟨num sj "x", num sj "y", num sj "z"⟩, ang := ang tr "a", height := num sj "height" }
+    let outline := pts (sj.get? "pts")
+    let own := w.get? "pts"
+    let loc : Option Loc :=
+      match SkelIO.ostr w "location", own with
+      | none, some (J.arr _) => some (.poly (pts own))
+      | some "TOP", some (J.arr _) => some (.poly (pts own))
+      | some "TOP", _ => some .top
+      | some "BOTTOM", some (J.arr _) => none
+      | some "BOTTOM", _ => some .bottom
+      | some _, _ =>
+        match w.get? "edge" with
+        | some (J.obj kv) => match jnums ((J.obj kv).get? "p1" |>.getD J.null) with
+          | [x, y] => some (.edge (x, y) (num (J.obj kv) "width"))
+          | _ => none
+        | _ => none
+      | none, _ => none
+    loc.map (fun l => wallCorners g (ang tr "w") (ang tr "t") sp outline { loc := l, x := num w "x", y := num w "y", z := num w "z" })
+end PlaceIO
+
+/-- op `placement`: global corners of every wall of the parsed project -/
+def opPlacement (req : J) : J :=
+  match (req.get? "impl").bind (fun i => i.get? "source") with
+  | none => J.obj [("skip", J.bool true)]
+  | some src =>
+    let spaces := SkelIO.arr src "spaces"
+    J.obj [("walls", J.arr ((SkelIO.arr src "walls").map (fun w =>
+      J.obj [("name", J.str (SkelIO.str w "name")),
+             ("corners", match PlaceIO.wallOf spaces w with
+                | some cs => J.arr (cs.map (fun c => J.arr [J.ofRat c.x 6, J.ofRat c.y 6, J.ofRat c.z 6]))
+                | none => J.null)])))]
+
 /-- op `occupancy`: yearly occupied time and mean internal load -/
 def opOccupancy (m : Model) : J :=
   J.obj [("hours_in_use", J.ofNat (hoursInUse m)), ("average_load", jr (averageLoad (Fns.approx 0) m)),
@@ -406,6 +456,7 @@ def handle (line : String) : String :=
       | some (J.str "edgevert") => opEdgeVert req
       | some (J.str "bdlblocks") => opBdlBlocks req
       | some (J.str "skelconvert") => opSkelConvert req
+      | some (J.str "placement") => opPlacement req
       | some (J.str "indicators") => withModel req (opIndicators req)
       | some (J.str "classify") => opClassify req
       | some (J.str "bvh") => opBvh req
